@@ -24,6 +24,11 @@ package lucene
 //
 // The oracle is the statement; neither tree is taken as the expected value of the other
 // beyond the erasure relation the statement itself defines.
+//
+// Interface: /verif/harness/README.md (VERIF_TIER, VERIF_SEED, VERIF_REPORT).  Extra knobs,
+// not needed for normal runs: VERIF_INPUT=<input, Go-quoted or verbatim> replays the check
+// on that single input; VERIF_C11_LEN / VERIF_C11_XLEN / VERIF_C11_RANDOM override the bounds.
+// The test also runs a self-test of its own oracle on hand-built trees first.
 
 import (
 	"encoding/json"
